@@ -154,6 +154,39 @@ let () =
             Buffer.add_char buf '\t';
             Buffer.add_string buf (hex (formatRoots roots))
           with Bad m -> Buffer.add_string buf ("BADDUMP " ^ m))
+       | "leafok" ->
+         (* C07: the leaf hypothesis of C07_render_safeW, evaluated on the implementation's tree *)
+         (try
+            let (roots, _) = parse_roots (tokenize f0) [] in
+            let ign = (k / 3) mod 2 = 1 in
+            Buffer.add_string buf (if List.for_all (fun r -> bokW ign r.rb_src r.rb_blk) roots then "1" else "0")
+          with Bad m -> Buffer.add_string buf ("BADDUMP " ^ m))
+       | "recog" ->
+         let l = unhex f0 in
+         let ((lvl, cs), ce) = parseATXHeading l in
+         let (((ch, n), is), ie) = parseCodeFence l in
+         let ((d, num), e) = parseListMarker l in
+         Buffer.add_string buf (Printf.sprintf "tb=%d atx=%d:%d:%d setext=%d fence=%d:%d:%d:%d lm=%d:%d:%d"
+           (zi (parseThematicBreak l)) (zi lvl) (zi cs) (zi ce) (zi (parseSetextHeadingUnderline l))
+           (zi ch) (zi n) (zi is) (zi ie) (zi d) (zi num) (zi e))
+       | "uri" -> Buffer.add_string buf (hex (normalizeURI (unhex f0)))
+       | "email" -> let l = unhex f0 in
+         Buffer.add_string buf (Printf.sprintf "%d %s" (zi (parseEmail l)) (if isEmailAddress l then "true" else "false"))
+       | "filterraw" ->
+         let fk = (match param with "gfm" -> 1 | "all" -> 2 | "none" -> 3 | "set1" -> 5 | "set2" -> 6 | _ -> 1) in
+         let c = { softBreak = Z0; ignoreRaw = false; filterOn = true;
+                   filterP = (fun n -> let s = str_of n in
+                     match fk with 1 -> List.mem s gfm | 2 -> true | 3 -> false
+                                 | 5 -> List.mem s (gfm @ ["b";"div";"a"]) | 6 -> List.mem s (gfm @ ["em";"p";"pre";"code"]) | _ -> false) } in
+         Buffer.add_string buf (hex (filterRaw c (unhex f0)))
+       | "class" ->
+         for c = 0 to 255 do
+           let z = z_of_int c in
+           let m = (b2i (isSpaceTabOrLineEnding z)) lor (b2i (isASCIILetter z) lsl 1) lor (b2i (isASCIIDigit z) lsl 2)
+                   lor (b2i (isASCIIPunctuation z) lsl 3) lor (b2i (isASCIIControl z) lsl 4) lor (b2i (isHex z) lsl 5)
+                   lor (b2i (isUnquotedAttributeValueChar z) lsl 6) in
+           Buffer.add_string buf (Printf.sprintf "%d %d %d %d\n" c m (zi (toLowerASCII z)) (zi (urlHexDigit (z_of_int (c land 15)))))
+         done
        | _ -> failwith "unknown mode");
       print_endline (Buffer.contents buf);
       incr idx
